@@ -162,7 +162,8 @@ def canonical_mutations():
             ["add_link", "n2", "L2", "n3"], ["add_links", [["n1", "L2", "n2"], ["n2", "L3", "n0"]]], ["add_links", [["n0", "L3", "n1"]]],
             ["add_origin", "R0", "n1"], ["add_origin", "M0", "n1"], ["add_origin", "I0", "n3"], ["add_destination", "D0", "n2"],
             ["add_destination", "D1", "n2"], ["add_destination", "D2", "n3"], ["add_path", ["n0", "L0", "n1", "L2", "n2"], "I0", "D0"],
-            ["add_path", ["n3", "L4", "n1"], "R1", None], ["add_path", ["n1", "L1", "n2"], "S0", "D2"]]
+            ["add_path", ["n3", "L4", "n1"], "R1", None], ["add_path", ["n1", "L1", "n2"], "S0", "D2"],
+            ["add_links_bad", [["n3", "L4", "n0"]]], ["add_nodes_bad", ["n3"]]]
 
 
 def check_C08(rng, budget):
